@@ -4,6 +4,8 @@ CONSTANTS
   InitProcs <- MCInit
   CodeShape = @CODESHAPE@
   AllowKnown = @ALLOWKNOWN@
+  Reent <- MCReent
+  PreCheck = @PRECHECK@
 INVARIANTS AtMostOnce RegisteredMeansAlive DeliveredWasRegistered Contract Statement Stuck
 PROPERTY Termination
 CHECK_DEADLOCK FALSE
